@@ -1676,6 +1676,7 @@ func (r *stack) lock() {
 			sc, _ := r.config()
 			_now := now()
 			sc.ldr = &_now
+			verifPoint("lock.ready", r)
 		}
 	}
 }
